@@ -46,6 +46,8 @@ type cell struct {
 	SOut        string `json:"secondary"` // answer | none | error
 	PErrAns     bool   `json:"primary_error_leaves_response,omitempty"`
 	SErrAns     bool   `json:"secondary_error_leaves_response,omitempty"`
+	PErrKind    string `json:"primary_error_kind,omitempty"`   // errkind.go; "" = plain scripted error
+	SErrKind    string `json:"secondary_error_kind,omitempty"` //
 	Order       string `json:"order"`       // Pfirst | Sfirst | Pslow | Sslow | together
 	Pause       string `json:"pause"`       // none | hold | hold+other (primary parked at fallback.primary.signalled; "+other": the secondary finishes inside the window)
 	Cancel      int    `json:"cancel_at"`   // -1 | k: caller's context ends at the k-th pending point
@@ -245,6 +247,9 @@ func runCase(c cell) caseResult {
 		sig = append(sig, k)
 	}
 	res.fp = fmt.Sprintf("%s|procs=%d|%s", c.class(), c.Procs, strings.Join(sig, ">"))
+	if fam := c.errFamilies(); fam != "" {
+		res.fp += "|branch-error-family=" + fam
+	}
 	res.nontriv = r.over && r.harnessProblem == "" && r.stall == "" &&
 		((c.Cancel < 0 && c.CancelRace < 0) || r.cancelled)
 	return res
@@ -387,6 +392,14 @@ func runUnit(u unit, lrn []learned, local map[string]int64) {
 		if c.SOut == "error" {
 			c.SErrAns = rng.Intn(3) == 0
 		}
+		// error-kind dimension (errkind.go); its own generator so that the other choices of the rep stay as they were
+		ekRng := newSplitMix(c.Seed ^ 0x0e44c1d)
+		if c.POut == "error" {
+			c.PErrKind = pickErrKind(ekRng)
+		}
+		if c.SOut == "error" {
+			c.SErrKind = pickErrKind(ekRng)
+		}
 		if c.Regime == "short" {
 			c.ThresholdMs = []int{20, 20, 10, 40}[rng.Intn(4)]
 			c.Late = rng.Intn(2) == 0
@@ -448,6 +461,21 @@ func runUnit(u unit, lrn []learned, local map[string]int64) {
 		if res.nontriv && len(res.findings) == 0 {
 			rep.Nontrivial(res.fp)
 			local["nontrivial_cases"]++
+			// error-kind coverage: which kinds actually failed a branch in a judged case, and what the model demanded then
+			for role, kind := range [2]string{c.PErrKind, c.SErrKind} {
+				if kind == "" || !res.r.has(roleName[role]+".end") || c.Edge != "" {
+					continue
+				}
+				local["errkind_judged:"+roleName[role]+"="+kind]++
+				if fam := errFamily(kind); c.Cancel < 0 && c.CancelRace < 0 {
+					other := [2]string{c.SOut, c.POut}[role]
+					what := "other-branch-fails-too=>ErrFailed"
+					if other == "answer" {
+						what = "other-branch-answers"
+					}
+					local["errkind_family_judged:"+fam+"/"+roleName[role]+"-fails/"+what+"/"+c.Regime]++
+				}
+			}
 		}
 		if k := sampleKind(c, res.r); k != "" && len(res.findings) == 0 && res.nontriv {
 			sampleMu.Lock()
@@ -458,6 +486,29 @@ func runUnit(u unit, lrn []learned, local map[string]int64) {
 			sampleMu.Unlock()
 		}
 		if len(res.findings) > 0 {
+			// A failing branch's error was not the plain one: does the SAME cell hold with the
+			// plain scripted error? Then the finding is about the error kind and its key says so.
+			if fam := c.errFamilies(); fam != "" {
+				local["findings_with_non_plain_branch_error"]++
+				plainHolds := true
+				for k := 0; k < 3 && plainHolds; k++ {
+					cc := c
+					cc.PErrKind, cc.SErrKind = "", ""
+					cc.Seed = rng.Int63n(1 << 40)
+					ctl := runCase(cc)
+					rep.Eval(1)
+					local["cases"]++
+					local["control_cases_with_plain_error"]++
+					plainHolds = len(ctl.findings) == 0 && ctl.nontriv
+				}
+				if plainHolds {
+					kinds := strings.Trim(c.PErrKind+"/"+c.SErrKind, "/")
+					for i := range res.findings {
+						res.findings[i].Key += "~only-when-branch-fails-with-" + fam + "-error"
+						res.findings[i].What += fmt.Sprintf("; the failing branch(es) returned error kind %s (primary %q, secondary %q; family %s: %s) while the caller's context was alive; the same cell held in 3 control executions with the plain scripted error", kinds, c.PErrKind, c.SErrKind, fam, familyText[fam])
+					}
+				}
+			}
 			for _, f := range res.findings {
 				rep.Violation(f.Key, f.What, map[string]any{"cell": c, "events": res.r.snapshot(), "mismatch": res.r.mm})
 			}
@@ -533,12 +584,13 @@ func baseCells() []cell {
 func main() {
 	rep = evid.New("C20", "exploration")
 	caselog = evid.OpenCaseLog()
-	rep.SetRule("cells = always_standby{on,off} x regime/order{long threshold 5 s: P first, S first, together; short threshold 10-40 ms with the primary held past it: P slow (S released first), S slow (P released first), together} x primary{answer,no answer,error(+/- stale response)} x secondary{same} x hook pause{none, primary parked at fallback.primary.signalled, parked + secondary finishes inside the window} x caller context{never ends, ends at each pending point incl. inside the pause window, cancelled together with each release, deadline expiry} x GOMAXPROCS{1,2,16}, each repeated; plus configured-threshold cells: the plugin built from YAML text through the real args decoder and Init with the threshold key {absent, 0, negative, 1, a few ms, below/around/above the 500 ms default, 4999, 5000, 5001, 6000, seeded values up to hours} in three spellings x always_standby x placement of the primary relative to the CONFIGURED threshold {answers inside (later than the 500 ms default where possible), fails inside, held past it, caller deadline shorter than it}; one case = one fallback call with scripted workers that finish only when released; non-trivial = the controller reached the scripted decisive state (all scripted starts/ends/hook events observed in order, context end realised where scripted) and a verdict was taken; distinct = cell class x GOMAXPROCS x realised event order")
+	rep.SetRule("cells = always_standby{on,off} x regime/order{long threshold 5 s: P first, S first, together; short threshold 10-40 ms with the primary held past it: P slow (S released first), S slow (P released first), together} x primary{answer,no answer,error(+/- stale response; error kind drawn per repetition from {plain, context.DeadlineExceeded, context.Canceled, wrapped / joined / errors.Is-method / own sub-context timeout or cancel cause variants of those, net timeout, (wrapped) fallback.ErrFailed, io errors}, always while the caller's context is alive)} x secondary{same} x hook pause{none, primary parked at fallback.primary.signalled, parked + secondary finishes inside the window} x caller context{never ends, ends at each pending point incl. inside the pause window, cancelled together with each release, deadline expiry} x GOMAXPROCS{1,2,16}, each repeated; plus configured-threshold cells: the plugin built from YAML text through the real args decoder and Init with the threshold key {absent, 0, negative, 1, a few ms, below/around/above the 500 ms default, 4999, 5000, 5001, 6000, seeded values up to hours} in three spellings x always_standby x placement of the primary relative to the CONFIGURED threshold {answers inside (later than the 500 ms default where possible), fails inside, held past it, caller deadline shorter than it}; one case = one fallback call with scripted workers that finish only when released; non-trivial = the controller reached the scripted decisive state (all scripted starts/ends/hook events observed in order, context end realised where scripted) and a verdict was taken; distinct = cell class x GOMAXPROCS x realised event order")
 	rep.Assume("a Go timer cannot fire early: S.start / a returned secondary answer earlier than the threshold after call start is judged, never a duration against an upper bound")
 	rep.Assume("'primary in time' is certain by construction: it is released within milliseconds while the threshold is 5000 ms (cases that take longer than 2.5 s are reported inconclusive)")
 	rep.Assume("'the call returns' is restated as returning within 4 s of the enabling event (nominal < 1 ms, resp. the 10-40 ms threshold)")
 	rep.Assume("configured-threshold cells: an absent or 0 threshold means the documented default of 500 ms; a negative threshold is not given a meaning by the statement (nothing is judged 'too early' there); 'primary within the threshold' is demanded only when the primary's end was logged at least half its nominal margin before the configured threshold; a fail-over later than threshold + 150 ms + 5% is judged only with the machine demonstrably on time (reference timer chain and lag monitor < 30 ms) and reproduced at once")
 	rep.Assume("when the caller's context ends at the same time as a result becomes due, either the result or the context error is accepted")
+	rep.Assume("how a branch fails (which error value it returns) is irrelevant to the statement: every error kind is judged by the same model and rules as the plain scripted error; 'fail-over at once, not at the threshold' is decided in the long regime (threshold 5 s, progress bound 4 s, scheduling lag > 1 s makes the case inconclusive)")
 	go lagMonitor()
 	buildPlugins()
 	sched.On("fallback.primary.signalled", hookPrimarySignalled)
@@ -726,6 +778,11 @@ func main() {
 		}
 		if p := cfgCoverageProblem(); p != "" {
 			rep.Inconclusive("%s (machine too slow to place the primary inside the configured threshold in 3 tries?)", p)
+		}
+		for _, k := range []string{"context/P-fails/other-branch-answers/long", "context/P-fails/other-branch-fails-too=>ErrFailed/long", "context/S-fails/other-branch-fails-too=>ErrFailed/long", "sentinel/P-fails/other-branch-answers/long", "net-timeout/P-fails/other-branch-answers/long"} {
+			if rep.Get("errkind_family_judged:"+k) == 0 {
+				rep.Inconclusive("error-kind dimension: no judged case of class %s", k)
+			}
 		}
 		if rep.Get("context_end_realised") == 0 || rep.Get("R1_secondary_starts_checked") == 0 {
 			rep.Inconclusive("monitor observed no context end / no secondary start")
